@@ -15,11 +15,13 @@ THEOREMS = ['C14_needed_symmetry_good', 'C14_packer_good', 'C14_grow_images_exac
 SH2 = list(itertools.product(range(-2, 3), repeat=3))
 
 
-def bonded(a1, a2, d):
+def bonded(a1, a2, d, margin=0.0):
+    """margin: the library adds 0.0001 A to every distance taken through an operator other than the identity (SHELX prefers the identity
+    at equal length), so a contact within 2.5e-4 A of the limit may be decided either way"""
     p1, p2 = a1.part.n, a2.part.n
     allowed = (p1 == p2) or ((p1 == 0 or p2 == 0) and not (sc.is_h(a1) or sc.is_h(a2)))       # hydrogen = H, D or T by element symbol
     # covalent radii by element symbol from the library's table, not through the atom object
-    return allowed and d < 1.2 * (gs.radius(a1.element) + gs.radius(a2.element))
+    return allowed and d < 1.2 * (gs.radius(a1.element) + gs.radius(a2.element)) + margin
 
 
 def oracle(ctx, st, ob, with_q):
@@ -38,6 +40,8 @@ def oracle(ctx, st, ob, with_q):
         return ev
     ops = [([[o.matrix[i, j] for j in range(3)] for i in range(3)], [float(t) for t in o.trans]) for o in ob['ops']]
     new = grown[len(orig):]
+    from props.c13 import exact_ops
+    exact = [([[float(v) for v in row] for row in o[0]], [float(t) for t in o[1]]) for o in exact_ops(st)]
     placed = [(a.part.n, [a.x, a.y, a.z]) for a in orig]
     images = set()
     for g in new:
@@ -67,6 +71,19 @@ def oracle(ctx, st, ob, with_q):
                                  dict(case, atom=g.name, xyz=[g.x, g.y, g.z]), 'S a + k', None)
             continue
         i, n, k = found
+        # ... and an image under an operator of the space group as constructed (exact table), not only under the library's own list
+        src = [atoms[i].x, atoms[i].y, atoms[i].z]
+        ok_exact = False
+        for (R_, t_) in exact:
+            p_ = [sum(R_[r][q] * src[q] for q in range(3)) + t_[r] for r in range(3)]
+            d_ = [[g.x, g.y, g.z][r] - p_[r] for r in range(3)]
+            if all(abs(v - round(v)) < 1e-7 for v in d_):
+                ok_exact = True
+                break
+        if not ok_exact:
+            common.add_violation(ctx, 'an added atom is not the exact image of its original atom under any operator of the space group (operators as constructed, exact fractions)',
+                                 dict(case, atom=g.name, xyz=[g.x, g.y, g.z], original=src), 'S a + k with S from the exact table', None)
+            continue
         images.add((atoms[i].molindex, n, k))
         # (3) no coincidence with an earlier atom of the same PART
         for (pp, q) in placed:
@@ -93,13 +110,13 @@ def oracle(ctx, st, ob, with_q):
 
     only_hh = {}
 
-    def is_bonded_image(mi, n, k):
+    def is_bonded_image(mi, n, k, margin=0.0):
         best = None
         hh = True
         for i, p in image_atoms(mi, n, k):
             for b in atoms:
                 d = sc.glen(G, [p[0] - b.x, p[1] - b.y, p[2] - b.z])
-                if d > 0.001 and bonded(atoms[i], b, d):      # an atom next to (not on) a symmetry element is bonded to its own image
+                if d > 0.001 and bonded(atoms[i], b, d, margin):      # an atom next to (not on) a symmetry element is bonded to its own image
                     if best is None or d < best:
                         best = d
                     if not (sc.is_h(atoms[i]) and sc.is_h(b) and atoms[i].an == b.an):
@@ -108,7 +125,7 @@ def oracle(ctx, st, ob, with_q):
         return best is not None, best
     for (mi, n, k) in images:
         ev += 1
-        ok, _ = is_bonded_image(mi, n, k)
+        ok, _ = is_bonded_image(mi, n, k, 2.5e-4)
         if not ok:
             common.add_violation(ctx, 'an added fragment image is not bonded to the asymmetric unit', dict(case, molecule=mi, operator=n, shift=list(k)), 'bonded', 'no bond')
     for mi in mols:
@@ -116,7 +133,7 @@ def oracle(ctx, st, ob, with_q):
             for k in SH2:
                 if n == 0 and k == (0, 0, 0):
                     continue
-                ok, d = is_bonded_image(mi, n, k)
+                ok, d = is_bonded_image(mi, n, k, -2.5e-4)
                 if not ok:
                     continue
                 ev += 1
